@@ -17,7 +17,7 @@ def _pick(pid, per_harness):
     if not chk:
         return []
     try:
-        rs = [r for r in chk['runs']('quick') if isinstance(r, McRun) and r.mode == 'plain']
+        rs = [r for r in chk['runs']('quick') if isinstance(r, McRun) and r.mode.startswith('plain')]
     except Exception:
         return []
     by = {}
